@@ -136,13 +136,16 @@ var plans = map[string]*Plan{
 		Rule: "histories of writes (all shapes), RW<->WO mode flips, explicit counter sets (accepted only in RW), reopen +-preload, snapshots and runs of 2-16 concurrent writers on disjoint blocks; after every step the in-memory and the persisted counter are compared with a model (+1 per applied write in RW, +0 in WO), concurrent samples must lie between completed and issued writes; " +
 			"non-trivial = >=1 unaligned write, a mode flip or set, and a reopen; distinct = hash of the op-kind sequence",
 		Assumptions: rengAssume,
-		Floor:       map[string]int64{"revision_samples": 300, "concurrent_runs": 5},
+		Floor:       map[string]int64{"revision_samples": 300, "concurrent_runs": 5, "rw_counter_comparisons": 100},
 		Jobs: func(tier string) []Job {
 			js := jobs("reng", 11, tierN(tier, 8, 130), "", time.Duration(tierN(tier, 10, 80))*time.Minute)
 			// crash points of the write path (E6): the counter after process death at any syscall boundary
 			js = append(js, jobs("crashpt", 3, tierN(tier, 1, 6), "tier="+tier, time.Duration(tierN(tier, 10, 80))*time.Minute)...)
 			// real processes (E5): a replica stalling for 1.5x the rpc deadline, rebuilds; all RW replicas report the same count
-			return append(js, jobs("cluster", tierN(tier, 2, 6), tierN(tier, 1, 3), "bin={BIN},cycles=2", time.Duration(tierN(tier, 20, 150))*time.Minute)...)
+			js = append(js, jobs("cluster", tierN(tier, 2, 6), tierN(tier, 1, 3), "bin={BIN},cycles=2", time.Duration(tierN(tier, 20, 150))*time.Minute)...)
+			// controller engine (E2): membership walks with rebuild verification (incl. a failing last step and retries);
+			// at every settled point all replicas listed RW were told RW and report the same count
+			return append(js, jobs("ctlsim", 3, tierN(tier, 40, 800), "", time.Duration(tierN(tier, 10, 60))*time.Minute)...)
 		},
 		CrashSig: rengCrash("C10"),
 		RaceJobs: func() []Job { return jobs("reng", 2, 12, "", 60*time.Minute) },
